@@ -104,11 +104,21 @@ func firstLine(s string) string {
 	return s
 }
 
-const evalLimit = 5 * time.Second
+// Wall-clock limits. They only decide when "does not terminate" is reported, so they are generous:
+// the checks run next to other jobs on the same machine, and a limit that is too tight is a false alarm.
+const evalLimit = 20 * time.Second
+
+// limitFor: programs that legitimately build ranges of millions of items get more time.
+func limitFor(prog string) time.Duration {
+	if strings.Contains(prog, "..") && (strings.Contains(prog, "000000") || strings.Contains(prog, "999999") || strings.Contains(prog, "e7") || strings.Contains(prog, "e6")) {
+		return 240 * time.Second
+	}
+	return evalLimit
+}
 
 // goEval compiles and evaluates a program text against an input.
 func goEval(prog string, input interface{}) goResult {
-	return safely(evalLimit, func() (interface{}, error) {
+	return safely(limitFor(prog), func() (interface{}, error) {
 		e, err := jsonata.Compile(prog)
 		if err != nil {
 			return nil, err
